@@ -3,7 +3,7 @@
    enum values) for all inputs, and for the translated compatibility policy; the known gaps of the analyser are
    stated as REFUTED witnesses (replayed on the implementation: known findings); composition over the document
    walk is exercised by the edit catalogue of the harness. *)
-From GS Require Import Base.Str Gen.GenDiffTables Tools.DiffTypes Tools.DiffSpec Tools.DiffModel Tools.DiffModelLemmas.
+From GS Require Import Base.Str Gen.GenDiffTables Tools.DiffTypes Tools.DiffSpec Tools.DiffModel Tools.DiffModelLemmas Tools.DiffSound.
 
 (* the policy tables regenerated from compatibility.go classify the request-narrowing codes as Breaking *)
 Lemma policy_request :
@@ -58,6 +58,27 @@ Theorem C13_enum_deleted_sound : forall l r e,
   existsb (fun t => breaking_req (td_change t)) (compare_enums l r) = true.
 Proof. exact enum_deleted_sound. Qed.
 Print Assumptions C13_enum_deleted_sound.
+
+(* one level up: whole primitive schemas through the control flow of CompareProps.
+   numbers: a value accepted by the first schema and rejected by the second is reported Breaking whenever the
+   exclusivity flags agree (the analyser looks at the bounds only then), and adding exclusivity is reported by itself *)
+Theorem C13_numeric_schema_sound : forall x1 x2 t v,
+  sc_ref x1 = [] -> sc_ref x2 = [] -> sc_typ x1 = [t] -> sc_typ x2 = [t] -> sc_format x1 = sc_format x2 -> wideness t <> None ->
+  ((v_xmax (sc_vals x1) = v_xmax (sc_vals x2) /\ v_xmin (sc_vals x1) = v_xmin (sc_vals x2) /\
+    sat_numeric (sc_vals x1) v = true /\ sat_numeric (sc_vals x2) v = false) \/
+   (v_xmax (sc_vals x1) = false /\ v_xmax (sc_vals x2) = true) \/ (v_xmin (sc_vals x1) = false /\ v_xmin (sc_vals x2) = true)) ->
+  exists l, compare_props x1 x2 = Ok l /\ breaking_list l = true.
+Proof. exact numeric_schema_sound. Qed.
+Print Assumptions C13_numeric_schema_sound.
+
+(* strings: length bounds, pattern (any matching engine), enumeration — unless an enumeration is added where none was *)
+Theorem C13_string_schema_sound : forall matches x1 x2 len v,
+  sc_ref x1 = [] -> sc_ref x2 = [] -> sc_typ x1 = [s "string"] -> sc_typ x2 = [s "string"] -> sc_format x1 = sc_format x2 ->
+  (v_enum (sc_vals x1) = [] -> v_enum (sc_vals x2) = []) ->
+  sat_string matches (sc_vals x1) len v = true -> sat_string matches (sc_vals x2) len v = false ->
+  exists l, compare_props x1 x2 = Ok l /\ breaking_list l = true.
+Proof. exact string_schema_sound. Qed.
+Print Assumptions C13_string_schema_sound.
 
 (* --- gaps of the analyser: the full statement is false of the faithful model --- *)
 Definition int_schema (mx : option Z) (xm : bool) (e : list enumv) : schema :=
